@@ -221,6 +221,17 @@ def run_c11(ctx):
                                   "a": sc["table"], "b": t2["table"], "outcome": "", "exc": "", "st": sc["st"]})
                 except Exception:
                     pass
+    # second pass: what a constructor accepts is a function of its arguments, not of what was constructed before in the
+    # process - every case with a tabulated argument is executed once more, now in reverse order (the tables of all
+    # parameters are made of the same numbers, so a table that is legal as one quantity and illegal as another has been
+    # seen as both by then)
+    n_first = len(cases)
+    for i in range(n_first - 1, -1, -1):
+        if any(str(f).startswith("t") and f != "true" for f in states[i]["a"].values()):
+            case, _ = drv_ctor.run_case(states[i], len(cases))
+            case["second_pass_of"] = i
+            cases.append(case)
+    res.extra["second_pass_cases"] = len(cases) - n_first
     slim = [{k: v for k, v in c.items() if k != "kw"} for c in cases]
     res.add_traces([{"tid": c["id"], "kind": "solve", "events": [dict(c, st=None, kw=repr(c["kw"])[:300])]} for c in cases])
     verd, stat, tstates = tlc.validate("TraceCtor.tla", "TraceCtor.cfg", [slim[i::tlc.NCPU] for i in range(tlc.NCPU) if slim[i::tlc.NCPU]], ctx.work)
@@ -451,10 +462,15 @@ def run_c19(ctx):
         rb, _ = tlc.run_sim("SimEdit.tla", "SimReuse.cfg", ctx.work, num=hnum // 3, depth=13, seed=ctx.seed + 21)
         mb = mb + rb
         n_hist = 0
-        for states in hb + mb:
-            s = drv_edit.new_system()
-            for st in states:
-                drv_edit.do_call(s, st["act"]["op"], st["act"]["a"])
+        import scenarios
+        hand = [x[1] for x in scenarios.build_histories() if not isinstance(x[1], Exception)]
+        for states in hand + hb + mb:
+            if isinstance(states, list):
+                s = drv_edit.new_system()
+                for st in states:
+                    drv_edit.do_call(s, st["act"]["op"], st["act"]["a"])
+            else:
+                s = states        # a hand-built edit history (harness/scenarios.py)
             pj = project(s)
             structs.add(struct_digest(pj))
             n_hist += 1
